@@ -11,7 +11,8 @@ def main(tier, seed):
                              ["Model/Sim.v", "Model/SimTime.v", "Model/Inline.v", "Oracle/SimCheck.v", "Oracle/SimOracle.v", "Proofs/SimP.v",
                               "Proofs/FlattenP.v", "Proofs/EqvP.v", "Proofs/WakeWfP.v", "Proofs/InlineP.v", "Proofs/InlineLoopP.v",
                               "Proofs/InlineScopeP.v", "Proofs/NonInterfLoopP.v", "Proofs/SimTimeP.v", "Model/NSim.v", "Proofs/InlineLatestP.v",
-                              "Proofs/Confluence2P.v", "Proofs/ScheduleP.v", "Proofs/SimTraceP.v", "Proofs/ParDevP.v", "Proofs/EqvCongP.v", "Proofs/AgreeP.v", "Proofs/FrameP.v", "Proofs/FuelP.v", "Proofs/InlineAllP.v", "Oracle/ScopeCheck.v", "Model/Interrupts.v", "Proofs/InterruptsP.v", "Oracle/XScriptOracle.v", "Props/C09.v"],
+                              "Proofs/Confluence2P.v", "Proofs/ScheduleP.v", "Proofs/SimTraceP.v", "Proofs/ParDevP.v", "Proofs/EqvCongP.v", "Proofs/AgreeP.v", "Proofs/FrameP.v", "Proofs/FuelP.v", "Proofs/InlineAllP.v", "Oracle/ScopeCheck.v", "Model/Interrupts.v", "Proofs/InterruptsP.v", "Oracle/XScriptOracle.v",
+                              "Proofs/Confluence3P.v", "Model/NNSim.v", "Proofs/NScheduleP.v", "Proofs/NDetP.v", "Proofs/NDetScopeP.v", "Proofs/NDetXP.v", "Proofs/SimNTP.v", "Props/C09.v"],
                              "transparency of system simulations", "flatten", extra_part=burst_part)
 
 
